@@ -246,6 +246,7 @@ class Ev:
         self.all_loops: list[LoopInfo] = []
         self.returns: list[Event] = []
         self.ctypes = ctypes or {}
+        self.fwd: dict = {}                # store-to-load forwarding for simple array cells: target key -> (base key, value)
         self.opaque = set(opaque)          # local names kept as atoms instead of being inlined
         self.defs: dict = {}               # ('local', name, version) -> defining value
         self._versions: dict = {}
@@ -381,6 +382,65 @@ class Ev:
         else:
             tgt = self.ev(t, store=True)
             self.emit("store", st, target=tgt, value=v)
+            self._fwd_store(tgt, v)
+
+    def _fwd_base(self, tgt: P):
+        a = tgt.as_atom()
+        if not a or a[0] != "sub":
+            return None
+        b = a[1].as_atom()
+        if b and b[0] in ("name", "obj"):
+            return a[1].key()
+        return None
+
+    def _fwd_store(self, tgt: P, v: P):
+        base = self._fwd_base(tgt)
+        if base is None:
+            return
+        a = tgt.as_atom()
+        consts = all(i.const_value() is not None for i in a[2])
+        for k in [k for k, (b, _, c) in self.fwd.items() if b == base and not (c and consts)]:
+            del self.fwd[k]
+        if not any(x.as_atom() and x.as_atom()[0] == "slice" for x in a[2]) and tgt.key() not in v.key():
+            self.fwd[tgt.key()] = (base, v, consts)
+        else:
+            self.fwd.pop(tgt.key(), None)
+
+    def _fwd_kill(self, tgt: P = None, bases=None):
+        if tgt is not None:
+            base = self._fwd_base(tgt)
+            bases = {base} if base else set()
+            a = tgt.as_atom()
+            if a and a[0] in ("sub", "attr") and not bases:
+                bases = {a[1].key()}
+        for k in [k for k, (b, _, _) in self.fwd.items() if b in bases]:
+            del self.fwd[k]
+
+    def _stored_bases(self, stmts):
+        out = set()
+        for st in stmts:
+            for n in ast.walk(st):
+                tg = []
+                if isinstance(n, ast.Assign):
+                    tg = n.targets
+                elif isinstance(n, (ast.AugAssign, ast.AnnAssign)):
+                    tg = [n.target]
+                for t in tg:
+                    for e in (t.elts if isinstance(t, (ast.Tuple, ast.List)) else [t]):
+                        while isinstance(e, (ast.Subscript, ast.Attribute)):
+                            e = e.value
+                            if isinstance(e, ast.Name):
+                                v = self.env.get(e.id)
+                                out.add(v.key() if v is not None else e.id)
+                                out.add(e.id)
+                if isinstance(n, ast.Call):
+                    # a call may write through any array argument
+                    for a in n.args:
+                        if isinstance(a, ast.Name):
+                            v = self.env.get(a.id)
+                            out.add(v.key() if v is not None else a.id)
+                            out.add(a.id)
+        return out
 
     def s_AugAssign(self, st):
         v = self.ev(st.value)
@@ -394,6 +454,7 @@ class Ev:
         else:
             tgt = self.ev(st.target, store=True)
             self.emit("aug", st, target=tgt, value=v, op=op)
+            self._fwd_kill(tgt)
 
     def s_Delete(self, st):
         for t in st.targets:
@@ -420,15 +481,25 @@ class Ev:
         c = self.ev(st.test)
         self.emit("test", st, value=c)
         env0 = dict(self.env)
+        fwd0 = dict(self.fwd)
         g0 = self.guards
         self.guards = g0 + ((c, True),)
         self.block(st.body)
         env1 = self.env
+        fwd1 = self.fwd
         self.env = dict(env0)
+        self.fwd = dict(fwd0)
         self.guards = g0 + ((c, False),)
         self.block(st.orelse)
         env2 = self.env
+        fwd2 = self.fwd
         self.guards = g0
+        if terminates(st.body) and not terminates(st.orelse):
+            self.fwd = fwd2
+        elif terminates(st.orelse) and not terminates(st.body):
+            self.fwd = fwd1
+        else:
+            self.fwd = {k: v for k, v in fwd1.items() if k in fwd2 and fwd2[k][1].key() == v[1].key()}
         t1, t2 = terminates(st.body), terminates(st.orelse)
         if t1 and not t2:
             self.env = env2
@@ -485,7 +556,10 @@ class Ev:
         self.loops = saved_loops + (info,)
         ev0 = len(self.events)
         lc_atoms = {n: self.env[n].as_atom() for n in carried if n in self.env}
+        body_bases = self._stored_bases(st.body)
+        self._fwd_kill(bases=body_bases)
         self.block(st.body)
+        self._fwd_kill(bases=body_bases)
         self.loops = saved_loops
         closed = self._close_counters(info, lc_atoms, ev0)
         for n in carried | set(info.targets):
@@ -615,7 +689,10 @@ class Ev:
         saved_loops, g0 = self.loops, self.guards
         self.loops = saved_loops + (info,)
         self.guards = g0 + ((c, True),)
+        body_bases = self._stored_bases(st.body)
+        self._fwd_kill(bases=body_bases)
         self.block(st.body)
+        self._fwd_kill(bases=body_bases)
         self.loops, self.guards = saved_loops, g0
         for n in carried:
             self.env[n] = P.atom(("after", n, k))
@@ -810,6 +887,11 @@ class Ev:
         return self.subscript(base, idx, store)
 
     def subscript(self, base: P, idx: tuple, store=False) -> P:
+        if not store and self.fwd:
+            k = P.atom(("sub", base, idx)).key()
+            hit = self.fwd.get(k)
+            if hit is not None:
+                return hit[1]
         if not store:
             # elementwise functions commute with indexing: cos(x)[k] == cos(x[k])
             ba = base.as_atom()
@@ -853,6 +935,8 @@ class Ev:
         args = tuple(args)
         res = self.canon_call(callee, args, kwargs, n)
         self.emit("call", n, value=res, target=callee, extra={"args": args, "kwargs": kwargs})
+        if self.fwd:
+            self._fwd_kill(bases={a.key() for a in args} | {v.key() for _, v in kwargs})
         return res
 
     def canon_call(self, callee: P, args, kwargs, node) -> P:
